@@ -3,12 +3,12 @@ module verif
 go 1.23
 
 require (
+	git.apache.org/thrift.git v0.13.0
 	github.com/henrylee2cn/erpc/v6 v6.0.0
 	github.com/henrylee2cn/goutil v0.0.0-20200416032639-974f5b4094a2
 )
 
 require (
-	git.apache.org/thrift.git v0.13.0 // indirect
 	github.com/cheekybits/genny v1.0.0 // indirect
 	github.com/gogo/protobuf v1.2.1 // indirect
 	github.com/golang/protobuf v1.4.2 // indirect
